@@ -191,12 +191,24 @@ fn main() {
             );
         }
         "C30" => {
+            if ctx.replay_case().map(|c| c["config_label"].as_str().map(|l| l.starts_with("accept ")).unwrap_or(false)) == Some(true) {
+                replay_generic(&ctx, c30::accept_cases(), |c| c.label(), |c| c30::accept_body(c));
+                ctx.finish("model_checking", "replay of one recorded schedule", false);
+            }
             c30::run(&ctx);
-            ctx.assume("scripted sockets stand in for the kernel: real TCP segmentation, recvmsg ancillary data / local-address selection (unix_udp_localaddr.rs), the accept loops and Tokio's multi-thread scheduler are not explored");
+            if ctx.replay_case().is_none() {
+                // The blocking provider's accept loop over a scripted listener:
+                // 0 / 1 / 2 permanent workers, lingering or not, 0-3 queued
+                // connections; every schedule with at most one deviation.
+                let cases = c30::accept_cases();
+                ctx.set_extra("accept_loop_cases", json!(cases.len()));
+                drive(&ctx, cases, |c| c.label(), |c| c.to_json(), 1, &[40], 40_000_000, |c| c30::accept_body(c));
+            }
+            ctx.assume("scripted sockets stand in for the kernel: real TCP segmentation, recvmsg ancillary data / local-address selection (unix_udp_localaddr.rs), the Tokio accept loop and Tokio's multi-thread scheduler are not explored");
             ctx.assume("at most one environment deviation (EINTR, timeout, EOF, error, Pending, stall, short/failing/interrupted write, shutdown at a response) per run, on top of the segmentation");
             ctx.finish(
                 "model_checking",
-                "every batch of <= 3 requests from a 7-entry menu (valid, EDNS, FORMERR-answered, NXDOMAIN, response-less QR / empty / short) x every subset (size <= 2 quick, <= 3 thorough, plus one-octet-at-a-time) of cut points within 3 octets of each length prefix / message boundary x every single environment deviation at every position, for the blocking and the Tokio connection handlers of the mirrored source over scripted sockets; UDP: every batch of <= 3 datagrams x deviations for run_udp_worker / run_udp_receiver. Oracle: output stream equals the concatenation of length-prefixed handle_message results for each request alone, in order, up to the first response-less request (or up to what the deviation allows); each datagram gets at most one reply, to its source from the address it was sent to, no larger than the payload size. states = runs (histories), transitions = socket events",
+                "every batch of <= 3 requests from a 7-entry menu (valid, EDNS, FORMERR-answered, NXDOMAIN, response-less QR / empty / short) x every subset (size <= 2 quick, <= 3 thorough, plus one-octet-at-a-time) of cut points within 3 octets of each length prefix / message boundary x every single environment deviation at every position, for the blocking and the Tokio connection handlers of the mirrored source over scripted sockets; UDP: every batch of <= 3 datagrams x deviations for run_udp_worker / run_udp_receiver; the blocking accept loop (run_tcp_listener) over a scripted listener with 0-3 queued connections x {0,1,2} permanent workers x lingering or not, every schedule without deviations and, where those number fewer than 40, with one deviation. Oracle: output stream equals the concatenation of length-prefixed handle_message results for each request alone, in order, up to the first response-less request (or up to what the deviation allows); each datagram gets at most one reply, to its source from the address it was sent to, no larger than the payload size. states = runs (histories), transitions = socket events",
                 true,
             );
         }
